@@ -130,15 +130,20 @@ def decode_trace(tid, base, tail, start):
 
 # ------------------------------------------------------------------ wire encoding
 def write_trace(tid, base, steps):
-    """steps: [("write", name, origin, compress) | ("plain", name, origin, canonicalize)]"""
+    """steps: [("write", name, origin, compress) | ("plain", name, origin, canonicalize) | ("digest", name, origin)]"""
     f = io.BytesIO()
     f.write(bytes(base))
     table = {}
     ev = []
     for st in steps:
+        if st[0] == "digest":
+            _, n, o = st
+            ev.append({"op": "plain", "via": "to_digestable", "n": n, "origin": o, "canon": True,
+                       "res": outcome(lambda: mk(n).to_digestable(origin_of(o)), list)})
+            continue
         if st[0] == "plain":
             _, n, o, canon = st
-            ev.append({"op": "plain", "n": n, "origin": o, "canon": canon,
+            ev.append({"op": "plain", "via": "to_wire", "n": n, "origin": o, "canon": canon,
                        "res": outcome(lambda: mk(n).to_wire(origin=origin_of(o), canonicalize=canon), list)})
             continue
         _, n, o, compress = st
